@@ -11,7 +11,7 @@ SEAM_OPS = {"sc.foreign_ctx"}
 SRC_KINDS = ["voltage_source", "current_source", "ac_voltage_source", "ac_current_source", "rect_voltage_source",
              "rect_current_source", "complex_voltage_source", "complex_current_source"]
 PAS_KINDS = ["resistor", "conductance", "impedance", "capacitor", "inductance"]
-DECADES = [1e-6, 1e-3, 0.1, 1, 4.7, 10, 220, 1e3, 4.7e4, 1e6]
+DECADES = [1e-6, 1e-3, 0.1, 1, 4.7, 10, 220, 1e3, 4.7e4, 1e6, 3.14159265, 0.123456789, 1234.56789]
 
 
 def _kw(r, kind, name, flags=True):
@@ -52,7 +52,7 @@ def _kw(r, kind, name, flags=True):
         kw = {}
     if kind in PAS_KINDS + ["ac_voltage_source", "ac_current_source"] and r.random() < 0.2:
         kw[r.choice(["show_name", "show_value"])] = False
-    if kind in ("voltage_source", "impedance", "ac_voltage_source") and r.random() < 0.15:
+    if kind not in ("line", "ground") and r.random() < 0.15:
         kw["precision"] = r.choice([2, 4])
     return enc(kw)
 
@@ -275,7 +275,8 @@ def _place_faults_c15(r, steps, cfg):
         if not free:
             return
         s = r.choice(free)
-        s["fault"] = {"kind": "interrupt", "k": int(round(2 ** r.uniform(0, 13))),
+        from .gen_c20 import interrupt_k
+        s["fault"] = {"kind": "interrupt", "k": interrupt_k(r, s) if r.random() < 0.7 else int(round(2 ** r.uniform(0, 13))),
                       "exc": r.choice(["interrupt", "interrupt", "interrupt", "memory", "key", "type", "os"])}
 
 
